@@ -17,6 +17,9 @@ import (
 )
 
 func init() {
+	mutant(&Mutant{Name: "c05-element-context-outlives-collapsed-element", Property: "C05", File: "svg/svg.go",
+		Old: "\t\t\t\ttag = 0 // the element has ended\n", New: "",
+		Rule: "R05.23", Construct: "resets the element context"})
 	mutant(&Mutant{Name: "c05-path-data-with-references-parsed", Property: "C05", File: "svg/svg.go",
 		Old: " else if attr == D && bytes.IndexByte(val, '&') == -1 {", New: " else if attr == D {",
 		Rule: "R05.22", Construct: "without character references"})
@@ -116,6 +119,7 @@ func runC05(c *Ctx) {
 	c.r0519(pk, "R05.19")
 	c.r0520(pk)
 	c.r0522(pk)
+	c.r0523(pk, "R05.23")
 	// the same escaper as in the XML minifier: SVG is XML
 	c.r069("R05.21", "svg")
 	// Inline decides whether the root element keeps its xmlns: it is a per-call fact and must not be written
@@ -1805,4 +1809,68 @@ func (c *Ctx) r0522(pk *packages.Package) {
 		}
 	}
 	c.R.Floor(rule, "calls of ShortenPathData in Minify", n, 1)
+}
+
+// R05.23 (= R11.12): the element context ends with the element.
+func (c *Ctx) r0523(pk *packages.Package, rule string) {
+	c.R.Rule(rule, "svg.(*Minifier).Minify remembers the element it is in (`tag`) to treat the text of a style element as a style sheet. An end tag resets it; when the minifier swallows the end tag itself — `<style></style>` is collapsed to `<style/>` — the reset has to happen there: from the write of the void close (`/>`) in the StartTagCloseToken case every path to the next token passes an assignment to the element variable. Otherwise the character data that follows the empty element is still taken for its content: `<style></style><![CDATA[ a { color : red } ]]>` had the CDATA section minified as CSS")
+	info := pk.TypesInfo
+	fd := c.fn(rule, pk, "Minifier.Minify")
+	if fd == nil {
+		return
+	}
+	g := c.graph(pk, fd)
+	// the element variable: assigned from t.Hash in the StartTagToken case
+	var tagVar types.Object
+	ast.Inspect(fd.Body, func(x ast.Node) bool {
+		as, ok := x.(*ast.AssignStmt)
+		if !ok || len(as.Lhs) != 1 || len(as.Rhs) != 1 || nospace(str(as.Rhs[0])) != "t.Hash" {
+			return true
+		}
+		if id, ok := as.Lhs[0].(*ast.Ident); ok && strings.Contains(c.caseLabel(as), "xml.StartTagToken") {
+			tagVar = info.Uses[id]
+		}
+		return true
+	})
+	if tagVar == nil {
+		c.R.Unres(rule, "svg.Minifier.Minify/element variable", c.pos(fd), "no assignment `tag = t.Hash` in the StartTagToken case")
+		return
+	}
+	isHead := func(q *flow.Node) bool {
+		a := q.Ast()
+		return a != nil && q.Kind == flow.KStmt && strings.Contains(nospace(str0(a)), ".Shift()") && c.enclosingLoopDepth(a) == 1
+	}
+	n := 0
+	for _, y := range g.Nodes {
+		a := y.Ast()
+		if a == nil || y.Kind != flow.KStmt || !strings.Contains(c.caseLabel(a), "xml.StartTagCloseToken") {
+			continue
+		}
+		void := false
+		for _, ce := range allCalls(a) {
+			if len(ce.Args) == 1 {
+				if s, ok := c.exprBytesText(pk, ce.Args[0]); ok && s == "/>" {
+					void = true
+				}
+			}
+		}
+		if !void {
+			continue
+		}
+		n++
+		p := g.Path(flow.Search{From: []*flow.Node{y}, Goal: isHead, Avoid: func(q *flow.Node) bool {
+			as, ok := q.Stmt.(*ast.AssignStmt)
+			if !ok || q.Kind != flow.KStmt {
+				return false
+			}
+			for _, l := range as.Lhs {
+				if id, ok := l.(*ast.Ident); ok && info.Uses[id] == tagVar {
+					return true
+				}
+			}
+			return false
+		}})
+		c.R.Check(p == nil, rule, fmt.Sprintf("svg.Minifier.Minify/collapsed element#%d resets the element context", n), c.pos(a), "the element variable is assigned before the next token", "an element whose end tag the minifier swallows leaves `"+c.P.NameOf(tagVar)+"` set: what follows `<style></style>` is still treated as the text of a style element: "+pathStr(c, g, p))
+	}
+	c.R.Floor(rule, "collapses of an empty element to a void tag", n, 1)
 }
